@@ -19,17 +19,29 @@ def _call(args):
     return fn(task)
 
 
-def pmap(fn, tasks, procs=None):
+def pmap(fn, tasks, procs=None, fresh=False):
     """Run fn(task) for every task; results come back in task order.
 
     fn must be a module-level function.  Module globals computed in the parent
-    before the first call are inherited by the workers (fork)."""
+    before the first call are inherited by the workers (fork).
+    fresh=True: every task runs in its own newly forked process, so whatever module-level state the code
+    under test accumulates (caches, counters) depends only on that task - its outcome is reproducible by
+    run_fresh(fn, task)."""
     tasks = list(tasks)
     procs = procs or nprocs()
+    if fresh:
+        with _CTX.Pool(processes=min(procs, max(1, len(tasks))), maxtasksperchild=1) as pool:
+            return pool.map(_call, [(fn, t) for t in tasks], chunksize=1)
     if procs <= 1 or len(tasks) <= 1:
         return [fn(t) for t in tasks]
     with _CTX.Pool(processes=min(procs, len(tasks))) as pool:
         return pool.map(_call, [(fn, t) for t in tasks], chunksize=1)
+
+
+def run_fresh(fn, task):
+    """fn(task) in one newly forked process (the caller must not have exercised the code under test)"""
+    with _CTX.Pool(processes=1, maxtasksperchild=1) as pool:
+        return pool.map(_call, [(fn, task)], chunksize=1)[0]
 
 
 def chunks(n, parts):
